@@ -118,6 +118,8 @@ MUTANTS = [
     ("H-is-fresh-conjuncts-reordered", "C02", "is_fresh", "mypy/build.py", "            self.meta is not None\n            and self.dependencies == self.meta.dependencies\n            and (", "            self.meta is not None\n            and self.meta.dependencies == self.dependencies\n            and (", "pass"),
     ("H-sqlite-commit-path-local", "C04", "sqlite.commit_path", "mypy/metastore.py", "        i = self._shard_index(name)\n        if i in self.dirty_shards:", "        i = self._shard_index(name)\n        dirty = self.dirty_shards\n        if i in dirty:", "pass"),
     ("H-count-stats-single-pass", "C13", "count_stats|has_severity", "mypy/util.py", "    notes = [e for e in messages if _has_severity(e, \": note:\", \": error:\")]\n    return len(errors), len(notes), len(error_files)", "    notes = [m for m in messages if _has_severity(m, \": note:\", \": error:\")]\n    return len(errors), len(notes), len(error_files)", "pass"),
+    ("coord-results-overwritten", "C07", "coord", "mypy/build.py", "            results.update(data.result)", "            results = data.result", "violation"),
+    ("coord-worker-freed-after-interface", "C07", "coord", "mypy/build.py", "            if not data.is_interface:\n                # Mark worker as free after it finished checking implementation.\n                self.free_workers.add(idx)", "            self.free_workers.add(idx)", "violation"),
     ("enabled-parent-check-dropped", "C13", "is_error_code_enabled", "mypy/errors.py", "elif error_code.sub_code_of is not None and error_code.sub_code_of in current_mod_disabled:\n            return False", "elif error_code.sub_code_of is not None and error_code.sub_code_of in current_mod_enabled:\n            return False", "violation"),
 ]
 
